@@ -149,6 +149,7 @@ type CallRule struct {
 type Contracts struct {
 	CallRules []*CallRule
 	TypeInv   map[string]string   // struct type name -> invariant over _v, assumed for every value read from memory or returned by foreign code
+	ImmutableLabel map[string]string // type -> obligation label (with property prefix) of the syntactic immutability check
 	Immutable map[string][]string // struct type name -> functions allowed to write it (constructors)
 	Theorems []*Theorem
 	Macros  map[string]*Macro
@@ -349,6 +350,15 @@ func (cs *Contracts) parseContractFile(file string, repo bool, pkgPath string) e
 		case word == "immutable":
 			cur, curLemma = nil, nil
 			// immutable pkg.Type except f, g, h
+			// optional label with property prefix: immutable C16.packer-immutable: slug.Packer except ...
+			if i := strings.Index(rest, ": "); i > 0 && !strings.Contains(rest[:i], " ") {
+				if cs.ImmutableLabel == nil {
+					cs.ImmutableLabel = map[string]string{}
+				}
+				lbl := rest[:i]
+				rest = strings.TrimSpace(rest[i+2:])
+				cs.ImmutableLabel[strings.TrimSpace(strings.SplitN(rest, " except ", 2)[0])] = lbl
+			}
 			parts := strings.SplitN(rest, " except ", 2)
 			var allow []string
 			if len(parts) == 2 {
